@@ -210,7 +210,10 @@ func (g *Gen) Good(t *ast.Type, variant int) Val {
 		return vInt(strconv.Itoa(11 + variant))
 	case "Float":
 		return Val{K: "float", Raw: strconv.Itoa(3+variant) + ".25"}
-	case "String", "ID", "Lit":
+	case "ID":
+		// a value that is valid for every Go binding of ID (string, int, uint)
+		return vStr(strconv.Itoa(21 + variant))
+	case "String", "Lit":
 		return vStr("g" + strconv.Itoa(variant))
 	case "Boolean":
 		return Val{K: "bool", Raw: strconv.FormatBool(variant == 0)}
